@@ -49,6 +49,16 @@ def make_cases(tier, seed, n_random=None, maxlen=None):
             pol = ["fifo", "lifo", "random"][i % 3]
             cases.append(dict(name=name, g=g, sr=SEMIRINGS[(i + 1) % 2], alg=alg, rename=["tuple", "rev"][i % 2],
                               order=common.perm(len(g.rules), rng), heap=pol, pre_eos=(i % 4 == 0), maxlen=bound(tier, g, maxlen)))
+    # strengthened after the independently seeded changes C01-1 / C01-2 / C20-2:
+    #  - a grammar whose own symbols are spelled like the library's internal start-symbol name '<START>'
+    #  - positive weights so small that float arithmetic loses them (mask is about positivity: Boolean conversion must come first),
+    #    with EOS attached by BoolCFGLM and by the caller
+    for i, (name, g) in enumerate(doms[:60]):
+        for alg in ALGS:
+            cases.append(dict(name=name, g=g, sr="Float", alg=alg, rename=["START0", "START1"][i % 2], order=None, heap="real",
+                              pre_eos=False, maxlen=bound(tier, g, maxlen)))
+            cases.append(dict(name=name, g=g, sr="FloatTiny", alg=alg, rename="id", order=None, heap="real", pre_eos=(i % 2 == 0),
+                              maxlen=bound(tier, g, maxlen)))
     return cases
 
 
